@@ -210,9 +210,17 @@ func (n *cnode) yaml(sb *strings.Builder, indent string, asList bool, envName *b
 		first = indent[:len(indent)-2] + "- "
 	}
 	name := n.name
+	workers := strconv.Itoa(n.workers)
 	if *envName && n.name != "" {
-		os.Setenv("FBV_NODE_NAME", n.name)
-		name = "${FBV_NODE_NAME}"
+		// ${VAR} references with every shape of variable name the shell allows (upper/lower case, digits, underscores)
+		v := envNames[cfgSel%len(envNames)]
+		os.Setenv(v, n.name)
+		name = "${" + v + "}"
+		if n.workers != 0 && cfgSel%4 == 2 {
+			w := envNames[(cfgSel+1)%len(envNames)] + "_w"
+			os.Setenv(w, workers)
+			workers = "${" + w + "}"
+		}
 		*envName = false
 	}
 	fmt.Fprintf(sb, "%sname: %s\n", first, name)
@@ -220,7 +228,7 @@ func (n *cnode) yaml(sb *strings.Builder, indent string, asList bool, envName *b
 		fmt.Fprintf(sb, "%sid: %s\n", indent, n.id)
 	}
 	if n.workers != 0 {
-		fmt.Fprintf(sb, "%sworkers: %d\n", indent, n.workers)
+		fmt.Fprintf(sb, "%sworkers: %s\n", indent, workers)
 	}
 	if n.buf != 0 {
 		fmt.Fprintf(sb, "%sbuffersize: %d\n", indent, n.buf)
@@ -249,6 +257,11 @@ func showCfgNode(n *node.Config, out *[]string) {
 
 var cfgSeq int
 
+// cfgSel: rendering choices (which names are written as ${VAR} references, and through which variable names) are a
+// function of the case's input, so that a replay of one case renders the same file
+var cfgSel int
+var envNames = []string{"FBV_NODE_NAME", "fbv_node_name", "FBV_N2", "Fbv_Name_x9", "_FBV", "FBVN"}
+
 func execConfig(input string) (res string) {
 	harnessRegistry()
 	toks := strings.Fields(input)
@@ -270,18 +283,23 @@ func execConfig(input string) (res string) {
 	if toks[2] != "-" {
 		fmt.Fprintf(&sb, "internaldata:\n  transport: %s\n  params:\n    brokers: b\n", untilde(toks[2]))
 	}
-	os.Setenv("FBV_SRC", toks[1])
 	cfgSeq++
+	cfgSel = 0
+	for _, b := range []byte(input) {
+		cfgSel = (cfgSel*31 + int(b)) % 1000003
+	}
 	srcName := toks[1]
-	if cfgSeq%3 == 0 {
-		srcName = "${FBV_SRC}"
+	if cfgSel%3 == 0 {
+		v := []string{"FBV_SRC", "fbv_src_1", "FBV_SRC_2b"}[(cfgSel/3)%3]
+		os.Setenv(v, toks[1])
+		srcName = "${" + v + "}"
 	}
 	fmt.Fprintf(&sb, "source:\n  name: %s\n  params:\n    p: v\n", srcName)
 	if toks[3] != "0" {
 		fmt.Fprintf(&sb, "shutdowntimeout: %s\n", toks[3])
 	}
 	sb.WriteString("nodes:\n")
-	envName := cfgSeq%2 == 0
+	envName := (cfgSel/7)%2 == 0
 	for _, rt := range roots {
 		rt.yaml(&sb, "    ", true, &envName)
 	}
